@@ -13,7 +13,18 @@
    the validity fuel (a "$ref" spends one unit).
 
    [nn] ("non-null"): the caller has already dealt with the instance [null]
-   (an enclosing Option), so only non-null instances need to be accepted. *)
+   (an enclosing Option), so only non-null instances need to be accepted.
+
+   Shape of the definitions: one schema node is checked by [covers_obj] (and its
+   parts [go], [leaf_ok], [union_ok], [struct_case], ...) against an abstract
+   verdict [cov] on the node's children; [covers] ties the knot by structural
+   recursion on the schema (the guard checker unfolds [covers_obj]).  The
+   soundness proof has one lemma per part.
+
+   Soundness theorem: CoversProofs.covers_sound (Props/C02.v).  Two conditions
+   are there because the proof needed them: "type" next to a "$ref" is NOT used
+   for the vacuity test (draft-07 ignores the siblings of "$ref"), and the wire
+   names of a struct's members must be pairwise distinct ([nodup_ustr]). *)
 From Coq Require Import String ZArith NArith QArith List Bool.
 From Typify Require Import Base.Json Spec.Schema Spec.Valid IR.TypeIR IR.Serde.
 Import ListNotations.
